@@ -273,36 +273,29 @@ func ruleR3(c *Ctx, id string) {
 		R.Check(ok, id, "alloctxn.(*AllocTxn).FreeINum|records on every path", P.Pos(V.FreeINum.Pos()), "FreeINum appends its argument to freeInums on every path", "must-follow", "a freed inode number is not recorded on some path: its bit stays set for ever")
 	}
 	// (d) PreCommit: four WriteBits with matching bitmap start and polarity
-	if V.PreCommit != nil && V.WriteBits != nil {
+	if V.PreCommit != nil && V.OverWrite != nil {
 		wantStart := map[string]string{"allocInums": "BitmapInodeStart", "freeInums": "BitmapInodeStart", "allocBnums": "BitmapBlockStart", "freeBnums": "BitmapBlockStart"}
 		wantPol := map[string]bool{"allocInums": true, "allocBnums": true, "freeInums": false, "freeBnums": false}
 		seen := map[string]int{}
-		for _, sc := range scopesOf(V.PreCommit) {
-			for _, call := range P.CallsIn(sc.Fn, funcIs(V.WriteBits)) {
-				n, f, _, _ := loadedFieldS(argN(call, 0), sc.S)
-				if n != V.AllocTxn {
-					R.Fail(id, "alloctxn.(*AllocTxn).PreCommit|WriteBits arg", P.Pos(call.Pos()), "WriteBits is given one of the four lists", "first argument is not a load of an AllocTxn list")
-					continue
-				}
-				seen[f]++
-				start := ""
-				if scall, ok := sc.S.resolve(argN(call, 1)).(*ssa.Call); ok {
-					if cal := scall.Call.StaticCallee(); cal != nil {
-						start = cal.Name()
-					}
-				}
-				pol, polOK := constBool(sc.S.resolve(argN(call, 2)))
-				ok := start == wantStart[f] && polOK && pol == wantPol[f]
-				// executed on every path of PreCommit: in its own body, and the helper call in PreCommit's
-				thisCall := call
-				always := MustAfter(sc.Fn, func(in ssa.Instruction) bool { return in == thisCall }, nil)(sc.Fn.Blocks[0].Instrs[0])
-				if sc.Via != nil {
-					via := ssa.Instruction(sc.Via)
-					vf := sc.Via.Parent()
-					always = always && MustAfter(vf, func(in ssa.Instruction) bool { return in == via }, nil)(vf.Blocks[0].Instrs[0])
-				}
-				R.Check(ok && always, id, "alloctxn.(*AllocTxn).PreCommit|WriteBits("+f+")", P.Pos(call.Pos()), fmt.Sprintf("list %s is written to the bitmap at %s with polarity %v on every path", f, wantStart[f], wantPol[f]), "bitmap, polarity and all-paths agree", fmt.Sprintf("found start=%s polarity=%v(const=%v) on-all-paths=%v", start, pol, polOK, always))
+		pcw, _ := preCommitWrites(c)
+		for _, w := range pcw {
+			sc, call, f := w.sc, w.call, w.list
+			if w.typ != V.AllocTxn {
+				R.Fail(id, "alloctxn.(*AllocTxn).PreCommit|WriteBits arg", P.Pos(call.Pos()), "WriteBits is given one of the four lists", "first argument is not a load of an AllocTxn list")
+				continue
 			}
+			seen[f]++
+			start, pol, polOK := w.start, w.pol, w.polOK
+			ok := start == wantStart[f] && polOK && pol == wantPol[f]
+			// executed on every path of PreCommit: in its own body, and the helper call in PreCommit's
+			thisCall := ssa.Instruction(call)
+			always := MustAfter(sc.Fn, func(in ssa.Instruction) bool { return in == thisCall }, nil)(sc.Fn.Blocks[0].Instrs[0])
+			if sc.Via != nil {
+				via := ssa.Instruction(sc.Via)
+				vf := sc.Via.Parent()
+				always = always && MustAfter(vf, func(in ssa.Instruction) bool { return in == via }, nil)(vf.Blocks[0].Instrs[0])
+			}
+			R.Check(ok && always, id, "alloctxn.(*AllocTxn).PreCommit|WriteBits("+f+")", P.Pos(call.Pos()), fmt.Sprintf("list %s is written to the bitmap at %s with polarity %v on every path", f, wantStart[f], wantPol[f]), "bitmap, polarity and all-paths agree", fmt.Sprintf("found start=%s polarity=%v(const=%v) on-all-paths=%v", start, pol, polOK, always))
 		}
 		for f := range wantStart {
 			if seen[f] != 1 {
@@ -343,121 +336,6 @@ func ruleR3(c *Ctx, id string) {
 			}
 		}
 	}
-}
-
-// ruleWriteBits: the bit written is 1<<(n%8) for alloc and its complement
-// for free, at addr.MkBitAddr(blk, n), one bit wide, for every element.
-func ruleWriteBits(c *Ctx, id string) {
-	V, P, R := c.V, c.P, c.R
-	f := V.WriteBits
-	key := "alloctxn.(*AllocTxn).WriteBits|"
-	// OverWrite(a, 1, ...) in a range loop over the first parameter (possibly in a function literal handed to an iterator helper)
-	var calls []ssa.Instruction
-	var callSc Scope
-	for _, sc := range scopesOf(f) {
-		for _, cl := range P.CallsIn(sc.Fn, funcIs(V.OverWrite)) {
-			calls = append(calls, cl)
-			callSc = sc
-		}
-	}
-	if len(calls) != 1 {
-		R.Fail(id, key+"one OverWrite", P.Pos(f.Pos()), "WriteBits writes each number with exactly one OverWrite", fmt.Sprintf("%d OverWrite calls", len(calls)))
-		return
-	}
-	call := calls[0]
-	sz, ok := constInt(argN(call, 1))
-	R.Check(ok && sz == 1, id, key+"size 1 bit", P.Pos(call.Pos()), "the object written is one bit", "constant 1", "bit-map write is not one bit wide: neighbouring bits of other transactions are overwritten")
-	// address = MkBitAddr(blk, n) with blk the parameter and n the element; bit = 1 << (n % 8)
-	{
-		okAddr := false
-		if ac, ok := callSc.S.resolve(stripConv(argN(call, 0))).(*ssa.Call); ok && ac.Call.StaticCallee() != nil && ac.Call.StaticCallee().Name() == "MkBitAddr" {
-			bp, isBlk := callSc.S.resolve(stripConv(ac.Call.Args[0])).(*ssa.Parameter)
-			isBlk = isBlk && bp.Parent() == f
-			// second arg: element of the ranged parameter slice (seen through the iterator's callback parameter)
-			elemOK := false
-			if u, ok := callSc.S.resolve(stripConv(ac.Call.Args[1])).(*ssa.UnOp); ok && u.Op == token.MUL {
-				if ia, ok := u.X.(*ssa.IndexAddr); ok {
-					var ep *ssa.Parameter
-					ep, elemOK = callSc.S.resolve(stripConv(ia.X)).(*ssa.Parameter)
-					elemOK = elemOK && ep.Parent() == f
-				}
-			}
-			okAddr = isBlk && elemOK
-		}
-		R.Check(okAddr, id, key+"bit address", P.Pos(call.Pos()), "the bit written is bit n of the bitmap starting at block blk (addr.MkBitAddr(blk, n))", "parameters passed through", "the bitmap bit written is not the bit of the number allocated/freed")
-		// the element of the ranged slice parameter
-		isElem := func(v ssa.Value) bool {
-			if u, ok := v.(*ssa.UnOp); ok && u.Op == token.MUL {
-				if ia, ok := u.X.(*ssa.IndexAddr); ok {
-					pm, isP := callSc.S.resolve(stripConv(ia.X)).(*ssa.Parameter)
-					return isP && pm.Parent() == f
-				}
-			}
-			return false
-		}
-		okBit := false
-		for _, sc := range scopesOf(f) {
-			for _, b := range sc.Fn.Blocks {
-				for _, in := range b.Instrs {
-					if sh, ok := in.(*ssa.BinOp); ok && sh.Op == token.SHL {
-						one, is1 := constInt(stripConv(sh.X))
-						if rem, ok := stripConv(sh.Y).(*ssa.BinOp); ok && rem.Op == token.REM && is1 && one == 1 {
-							if k, isk := constInt(rem.Y); isk && k == 8 && isElem(sc.S.resolve(rem.X)) {
-								okBit = true
-							}
-						}
-					}
-				}
-			}
-		}
-		R.Check(okBit, id, key+"bit value", P.Pos(call.Pos()), "the byte written carries bit 1 << (n % 8) of the number n being written", "shift by n % 8", "wrong bit inside the byte")
-	}
-	// the complement is taken exactly when alloc is false
-	var allocParam ssa.Value
-	for _, p := range f.Params {
-		if b, ok := p.Type().Underlying().(*types.Basic); ok && b.Kind() == types.Bool {
-			allocParam = p
-		}
-	}
-	var xor *ssa.UnOp
-	var xsc Scope
-	for _, sc := range scopesOf(f) {
-		for _, b := range sc.Fn.Blocks {
-			for _, in := range b.Instrs {
-				if u, ok := in.(*ssa.UnOp); ok && u.Op == token.XOR {
-					xor, xsc = u, sc
-				}
-			}
-		}
-	}
-	if xor == nil {
-		R.Fail(id, key+"complement for free", P.Pos(f.Pos()), "free lists write the complemented bit", "no complement found")
-		return
-	}
-	// block containing xor must be entered only on alloc==false
-	okPol := false
-	if allocParam != nil {
-		// the edges of the complementing scope taken when the polarity flag is false (the flag may be a parameter
-		// of a helper or a variable captured by a function literal)
-		e := condEdge(xsc.Fn, func(cd Cond) (bool, bool) {
-			if cd.Op != token.ILLEGAL || cd.X == nil {
-				return false, false
-			}
-			if xsc.S.resolve(stripConv(cd.X)) == allocParam {
-				return true, false
-			}
-			return false, false
-		})
-		xb := xor.Block()
-		all := len(xb.Preds) > 0
-		for _, pb := range xb.Preds {
-			if !e(pb, xb) {
-				all = false
-			}
-		}
-		okPol = all
-	}
-	R.Check(okPol, id, key+"complement iff !alloc", P.Pos(xor.Pos()), "the bit is complemented exactly on the alloc==false edge", "edge condition is !alloc", "polarity test does not select the complement on alloc==false")
 }
 
 // ---------------------------------------------------------------- R4
@@ -912,16 +790,14 @@ func topInstr(scopes []Scope, sc Scope, in ssa.Instruction) ssa.Instruction {
 // must be the last one written.
 func rulePreCommitOrder(c *Ctx, id string) {
 	V, P, R := c.V, c.P, c.R
-	if V.PreCommit == nil || V.WriteBits == nil {
+	if V.PreCommit == nil || V.OverWrite == nil {
 		return
 	}
 	at := map[string]ssa.Instruction{} // list -> the statement of PreCommit that writes it
-	pcScopes := scopesOf(V.PreCommit)
-	for _, sc := range pcScopes {
-		for _, call := range P.CallsIn(sc.Fn, funcIs(V.WriteBits)) {
-			if _, lf, _, _ := loadedFieldS(argN(call, 0), sc.S); lf != "" {
-				at[lf] = topInstr(pcScopes, sc, call)
-			}
+	pcw, pcScopes := preCommitWrites(c)
+	for _, w := range pcw {
+		if w.list != "" {
+			at[w.list] = topInstr(pcScopes, w.sc, w.call)
 		}
 	}
 	// a number allocated and given back by the same transaction (indbmap returns an index block it could not
